@@ -350,6 +350,27 @@ def f34_sparselybin_numpy_beyond_int64():
     return sum(v.entries for v in h.bins.values()) + h.nanflow.entries != h.entries
 
 
+def f35_bag_of_strings_label_nan():
+    b = hg.Bag(lambda d: d, "S")
+    for v in ("nan", "inf", "abc"):
+        b.fill(v)
+    r = hg.Factory.fromJson(b.toJson())
+    try:
+        return r.toJson() != b.toJson()
+    except TypeError:
+        return True
+
+
+def f36_empty_sparse_container_loses_bins_name():
+    from histogrammar.util import named
+    out = []
+    for h in (hg.SparselyBin(1.0, named("x", lambda d: d), hg.Sum(named("y", lambda d: d))),
+              hg.Categorize(named("x", lambda d: d), hg.Sum(named("y", lambda d: d)))):
+        j = h.toJson()
+        out.append(hg.Factory.fromJson(j).toJson() != j)
+    return all(out)
+
+
 if __name__ == "__main__":
     present = 0
     for name, fn in sorted((k, v) for k, v in globals().items() if k.startswith("f") and k[1:3].isdigit()):
